@@ -180,11 +180,14 @@ func buildECIES(cv curveSpec, h eciesHash, f formatSpec, d demSpec, salt []byte,
 }
 
 func drawSalt(t *rapid.T) []byte {
-	switch rapid.IntRange(0, 4).Draw(t, "salt_kind") {
-	case 0:
+	switch rapid.IntRange(0, 19).Draw(t, "salt_kind") {
+	case 0, 1, 2, 3:
 		return nil
-	case 1:
+	case 4, 5, 6, 7:
 		return []byte{}
+	case 8:
+		// longer than the block of every HKDF hash (64 / 128 bytes): HMAC hashes such a key first
+		return gen.BytesN(t, "salt", rapid.SampledFrom([]int{129, 200}).Draw(t, "salt_longlen"))
 	default:
 		return gen.BytesN(t, "salt", rapid.IntRange(1, 80).Draw(t, "salt_len"))
 	}
@@ -392,6 +395,12 @@ func checkECIES(t *rapid.T, c *eciesCase, pt, info []byte) int {
 	}
 	r.mustReject("ciphertext-for-other-key", oct, info)
 	r.record()
+	reuseAfterRejects(t, desc, c.enc, c.dec, ct, rct, pt, info, func(x []byte) ([]byte, error) {
+		if !bytes.HasPrefix(x, prefix) {
+			return nil, fmt.Errorf("ciphertext does not start with the prefix %x", prefix)
+		}
+		return eciesref.Open(c.ref, c.priv, info, x[plen:])
+	})
 	return r.n
 }
 
@@ -422,7 +431,7 @@ func TestECIES(t *testing.T) {
 		detrand.Seed(rapid.Uint64().Draw(rt, "entropy"))
 		c := drawECIES(rt)
 		pt := drawPlaintext(rt)
-		info := gen.BytesOrNil(rt, "info", 128)
+		info := drawInfo(rt)
 		n := checkECIES(rt, c, pt, info)
 		saltClass := "salt"
 		if c.salt == nil {
